@@ -177,6 +177,40 @@ pub struct LayerRt {
     pub layer: Layer,
     pub exhaustive: Option<regex::Regex>,
     pub nonexhaustive: Option<regex::Regex>,
+    /// the alternatives of a negation (members of `any`, branches of an alternation that is the
+    /// whole pattern or a whole branch, recursively) that report `is_exhaustive() == Always` on
+    /// their own: "an exhaustive negation" of C13's first sentence, independent of how wax splits
+    /// and partitions the pattern.  A directory one of them matches must be discarded as a tree.
+    pub exhaustive_alternatives: Vec<Glob<'static>>,
+}
+
+/// alternatives of a negation expression: an expression that is a single alternation (flags
+/// aside) stands for its branches, recursively
+pub fn negation_alternatives(e: &Expr) -> Vec<Expr> {
+    let toks: Vec<&Tok> = e.iter().filter(|t| !t.is_flag()).collect();
+    if let [Tok::Alt(bs)] = toks.as_slice() {
+        return bs.iter().flat_map(negation_alternatives).collect();
+    }
+    vec![e.clone()]
+}
+
+fn exhaustive_alternatives(exprs: &[Expr]) -> Vec<Glob<'static>> {
+    let mut out = Vec::new();
+    for e in exprs {
+        let alts = negation_alternatives(e);
+        if alts.len() < 2 {
+            // the pattern itself: wax's own partition decides (hook)
+            continue;
+        }
+        for a in alts {
+            if let Ok(g) = Glob::new(&render_text(&a)) {
+                if g.is_exhaustive().is_always() {
+                    out.push(g.into_owned());
+                }
+            }
+        }
+    }
+    out
 }
 
 pub fn prepare_layers(layers: &[Layer]) -> Result<Vec<LayerRt>, BuildError> {
@@ -190,18 +224,29 @@ pub fn prepare_layers(layers: &[Layer]) -> Result<Vec<LayerRt>, BuildError> {
                     layer: l.clone(),
                     exhaustive: ex.and_then(|p| regex::Regex::new(&p).ok()),
                     nonexhaustive: ne.and_then(|p| regex::Regex::new(&p).ok()),
+                    exhaustive_alternatives: exhaustive_alternatives(std::slice::from_ref(e)),
                 });
             },
             Layer::NotAny(es) => {
                 let texts: Vec<String> = es.iter().map(render_text).collect();
                 let (ex, ne) = wax::walk::verif_negation_patterns(wax::any(texts.iter().map(|s| s.as_str())))?;
+                let mut alts = exhaustive_alternatives(es);
+                // the members themselves are alternatives too
+                for t in &texts {
+                    if let Ok(g) = Glob::new(t) {
+                        if g.is_exhaustive().is_always() {
+                            alts.push(g.into_owned());
+                        }
+                    }
+                }
                 out.push(LayerRt {
                     layer: l.clone(),
                     exhaustive: ex.and_then(|p| regex::Regex::new(&p).ok()),
                     nonexhaustive: ne.and_then(|p| regex::Regex::new(&p).ok()),
+                    exhaustive_alternatives: alts,
                 });
             },
-            Layer::Table(_) => out.push(LayerRt { layer: l.clone(), exhaustive: None, nonexhaustive: None }),
+            Layer::Table(_) => out.push(LayerRt { layer: l.clone(), exhaustive: None, nonexhaustive: None, exhaustive_alternatives: Vec::new() }),
         }
     }
     Ok(out)
@@ -210,7 +255,7 @@ pub fn prepare_layers(layers: &[Layer]) -> Result<Vec<LayerRt>, BuildError> {
 pub fn layer_verdict(l: &LayerRt, rel: &str) -> Verdict {
     match &l.layer {
         Layer::Not(_) | Layer::NotAny(_) => {
-            if l.exhaustive.as_ref().map_or(false, |r| r.is_match(rel)) {
+            if l.exhaustive.as_ref().map_or(false, |r| r.is_match(rel)) || l.exhaustive_alternatives.iter().any(|g| g.is_match(rel)) {
                 Verdict::Tree
             }
             else if l.nonexhaustive.as_ref().map_or(false, |r| r.is_match(rel)) {
@@ -535,7 +580,27 @@ pub fn gen_not_expr(t: &mut Tape, tree: &TreeSpec) -> Expr {
     let names = tree_names(tree);
     let paths: Vec<String> = tree.nodes.iter().map(|n| n.path.clone()).collect();
     let tree_end = Tok::Tree { lead: true, trail: false };
-    let e: Expr = match t.below(8) {
+    let e: Expr = match t.below(9) {
+        8 => {
+            // an alternation nested as a whole branch of an alternation, mixing an exhaustive and a
+            // non-exhaustive branch: `{x,{d/**,*.rs}}` (either order)
+            let dirs: Vec<String> = tree.nodes.iter().filter(|n| n.kind == Kind::Dir).map(|n| n.path.clone()).collect();
+            let mut ex = if dirs.is_empty() { vec![Tok::lit("a")] } else { literal_prefix(&t.pick(&dirs), false) };
+            ex.push(tree_end.clone());
+            let ne = match t.below(3) {
+                0 => vec![Tok::Zom { lazy: false }, Tok::lit(".rs")],
+                1 => vec![Tok::Tree { lead: false, trail: true }, Tok::lit(&t.pick(&names))],
+                _ => vec![Tok::lit(&t.pick(&names))],
+            };
+            let inner = if t.chance(128) { Tok::Alt(vec![ex, ne]) } else { Tok::Alt(vec![ne, ex]) };
+            let other = vec![Tok::lit(&t.pick(&names))];
+            if t.chance(128) {
+                vec![Tok::Alt(vec![other, vec![inner]])]
+            }
+            else {
+                vec![Tok::Alt(vec![vec![inner], other])]
+            }
+        },
         0 | 1 => {
             if paths.is_empty() {
                 vec![Tok::lit("a"), tree_end]
